@@ -356,6 +356,9 @@ pub fn run(report: &Report) {
     report.require("symbols_decoded");
     report.sample(json!({"data": ["ff", "00"], "model_program": [3, 5, 3, 5, 3, 5], "models": ["Part<2>", "Part<8>", "categorical", "lookup-contiguous", "lookup-non-contiguous(P=5)", "quantised Gaussian", "lazy categorical", "uniform(10)@4", "non-contiguous(P=8, full precision)", "uniform(256)@8", "quantised Gaussian over all of i8"]}));
     run_with(report, "C10");
+    super::pyfront::sweep(report, "decoders", if report.tier == Tier::Quick { 3 } else { 4 },
+        "every u32 word string up to the listed length over 8 boundary words x 6 ways of constructing a decoder (AnsCoder, sealed AnsCoder, RangeDecoder, ChainCoder from compressed / sealed / remainders) x 5 models x {1, 6 symbols} x 3 call forms (one symbol per call, decode(model, amt), decode(family, parameter arrays)): symbols inside the support, or the documented error (AssertionError of RangeDecoder / ChainCoder, ValueError at construction); a PanicException is a violation",
+        &[], &[]);
 }
 
 pub fn replay(case: &serde_json::Value) -> Result<String, String> {
